@@ -30,9 +30,9 @@ use yash_env::job::{Pid, ProcessResult, ProcessState};
 use yash_env::semantics::{ExitStatus, Field};
 use yash_env::system::concurrency::Sleep as _;
 use yash_env::system::r#virtual::sigset::Sigset as VSigset;
-use yash_env::system::r#virtual::{SIGCHLD, VirtualSystem};
+use yash_env::system::r#virtual::{SIGCHLD, SIGCONT, SIGSTOP, VirtualSystem};
 use yash_env::system::{
-    CaughtSignals as _, Disposition, Errno, Exit as _, Fork as _, Sigaction as _, Sigmask as _,
+    CaughtSignals as _, Disposition, Errno, Exit as _, Fork as _, SendSignal as _, Sigaction as _, Sigmask as _,
     SigmaskOp, Sigset as _, Wait as _,
 };
 use yv_harness::cli::Args;
@@ -75,6 +75,8 @@ impl Future for Gate {
 enum KOp {
     Fork(i32),
     Exit(usize),
+    /// `true` = SIGSTOP, `false` = SIGCONT
+    Sig(bool, usize),
     Wait(Option<usize>),
     Block,
     Unblock,
@@ -83,6 +85,10 @@ enum KOp {
 }
 
 fn stream_k_case(w: &mut CasesWriter, r: &mut Rng, nops: usize, forced: Option<Vec<KOp>>) {
+    stream_k_case_tagged(w, r, nops, forced, &[]);
+}
+
+fn stream_k_case_tagged(w: &mut CasesWriter, r: &mut Rng, nops: usize, forced: Option<Vec<KOp>>, tags: &[&str]) {
     WATCHDOG.with(|wd| wd.tick("stream K"));
     let vs = VirtualSystem::new();
     let state = Rc::clone(&vs.state);
@@ -90,6 +96,7 @@ fn stream_k_case(w: &mut CasesWriter, r: &mut Rng, nops: usize, forced: Option<V
     state.borrow_mut().executor = Some(Rc::new(sched.clone()));
     let mut gates: Vec<Rc<Cell<bool>>> = vec![];
     let mut running: Vec<usize> = vec![];
+    let mut stopped: Vec<usize> = vec![];
     let mut hist = vec![];
     let mut human = vec![];
     let chld = {
@@ -109,12 +116,22 @@ fn stream_k_case(w: &mut CasesWriter, r: &mut Rng, nops: usize, forced: Option<V
         } else {
             loop {
                 let op = match r.below(100) {
-                    0..=19 => KOp::Fork(*r.pick(&[0, 0, 1, 2, 7, 42, 127, 255])),
-                    20..=39 => {
+                    0..=17 => KOp::Fork(*r.pick(&[0, 0, 1, 2, 7, 42, 127, 255])),
+                    18..=33 => {
                         if running.is_empty() {
                             continue;
                         }
                         KOp::Exit(running[r.below(running.len())])
+                    }
+                    34..=39 => {
+                        // signals go to live children only (a signal to a terminated
+                        // process has no effect: corpus case F9; `kill` on a reaped pid still
+                        // reports success in the simulator, which is outside the domain)
+                        let live: Vec<usize> = running.iter().chain(stopped.iter()).copied().collect();
+                        if live.is_empty() {
+                            continue;
+                        }
+                        KOp::Sig(r.chance(1, 2), live[r.below(live.len())])
                     }
                     40..=54 => KOp::Wait(None),
                     55..=74 => KOp::Wait(Some(r.below(gates.len() + 2))),
@@ -165,6 +182,24 @@ fn stream_k_case(w: &mut CasesWriter, r: &mut Rng, nops: usize, forced: Option<V
                 }
                 (format!("(KExit {})", coq::nat(*i)), "BUnit".into(), format!("exit({i})"))
             }
+            KOp::Sig(stop, i) => {
+                let sig = if *stop { SIGSTOP } else { SIGCONT };
+                let _ = vs.kill(Pid(3 + *i as i32), Some(sig)).now_or_never();
+                if *stop {
+                    if running.contains(i) {
+                        running.retain(|x| x != i);
+                        stopped.push(*i);
+                    }
+                } else if stopped.contains(i) {
+                    stopped.retain(|x| x != i);
+                    running.push(*i);
+                }
+                (
+                    format!("(KSig {} {})", if *stop { "SStop" } else { "SCont" }, coq::nat(*i)),
+                    "BUnit".into(),
+                    format!("kill({}, {i})", if *stop { "STOP" } else { "CONT" }),
+                )
+            }
             KOp::Wait(t) => {
                 let pid = match t {
                     None => Pid(-1),
@@ -179,6 +214,14 @@ fn stream_k_case(w: &mut CasesWriter, r: &mut Rng, nops: usize, forced: Option<V
                             format!("child {} exited {}", p.0 - 3, st.0),
                         )
                     }
+                    Ok(Some((p, ProcessState::Halted(ProcessResult::Stopped(_))))) => (
+                        format!("(WStop {})", coq::nat((p.0 - 3) as usize)),
+                        format!("child {} stopped", p.0 - 3),
+                    ),
+                    Ok(Some((p, ProcessState::Running))) => (
+                        format!("(WCont {})", coq::nat((p.0 - 3) as usize)),
+                        format!("child {} continued", p.0 - 3),
+                    ),
                     Ok(Some((p, other))) => (
                         // a state the model does not know: the oracle rejects it
                         format!("(WSome {} 99999%N)", coq::nat((p.0 - 3) as usize)),
@@ -223,12 +266,14 @@ fn stream_k_case(w: &mut CasesWriter, r: &mut Rng, nops: usize, forced: Option<V
                 .iter()
                 .filter(|(pid, _)| pid.0 != 2)
                 .map(|(_, p)| {
-                    let c = if p.state().is_alive() {
-                        0
-                    } else if p.state_has_changed() {
-                        1
-                    } else {
-                        2
+                    let c = match (p.state(), p.state_has_changed()) {
+                        (ProcessState::Running, false) => 0,
+                        (ProcessState::Running, true) => 4,
+                        (st, ch) if st.is_stopped() => {
+                            if ch { 5 } else { 3 }
+                        }
+                        (_, true) => 1,
+                        (_, false) => 2,
                     };
                     coq::nat(c)
                 })
@@ -241,6 +286,8 @@ fn stream_k_case(w: &mut CasesWriter, r: &mut Rng, nops: usize, forced: Option<V
         w.count(match op {
             KOp::Fork(_) => "K.op:fork",
             KOp::Exit(_) => "K.op:exit",
+            KOp::Sig(true, _) => "K.op:kill(STOP)",
+            KOp::Sig(false, _) => "K.op:kill(CONT)",
             KOp::Wait(None) => "K.op:wait(-1)",
             KOp::Wait(Some(_)) => "K.op:wait(pid)",
             KOp::Block | KOp::Unblock => "K.op:sigmask",
@@ -258,28 +305,81 @@ fn stream_k_case(w: &mut CasesWriter, r: &mut Rng, nops: usize, forced: Option<V
         w.count("K.case:two-exits-while-blocked");
     }
     let key = if reaped_any && gates.len() >= 2 { Some(format!("K:{}", human.join(";"))) } else { None };
-    w.push(&term, &json, &[], key);
+    w.push(&term, &json, tags, key);
 }
 
 // ---------------------------------------------------------------------------
 // Stream S
 
+/// What a child does before it exits.
+#[derive(Clone, Debug, PartialEq)]
+enum Act {
+    Work,
+    /// `true` = SIGSTOP, `false` = SIGCONT; target = index of a child
+    Kill(bool, usize),
+}
+
+fn works(n: u32) -> Vec<Act> {
+    vec![Act::Work; n as usize]
+}
+
+fn acts_coq(a: &[Act]) -> String {
+    let v: Vec<String> = a
+        .iter()
+        .map(|x| match x {
+            Act::Work => "AWork".to_string(),
+            Act::Kill(stop, t) => {
+                format!("(AKill {} {})", if *stop { "SStop" } else { "SCont" }, coq::nat(*t))
+            }
+        })
+        .collect();
+    coq::list(&v)
+}
+
+/// The commands of a child: its actions, then `work 0 STATUS` to set the exit status.
+fn acts_sh(a: &[Act], st: i32) -> String {
+    let mut parts: Vec<String> = vec![];
+    let mut w = 0;
+    for x in a {
+        match x {
+            Act::Work => w += 1,
+            Act::Kill(stop, t) => {
+                if w > 0 {
+                    parts.push(format!("work {w}"));
+                    w = 0;
+                }
+                parts.push(format!("kill -{} {}", if *stop { "STOP" } else { "CONT" }, 3 + t));
+            }
+        }
+    }
+    parts.push(format!("work {w} {st}"));
+    parts.join("; ")
+}
+
 #[derive(Clone, Debug)]
 enum Cmd {
-    Async(u32, i32),
-    Pipe(Vec<(u32, i32)>, bool),
+    Async(Vec<Act>, i32),
+    Pipe(Vec<(Vec<Act>, i32)>, bool),
     Wait(Option<usize>),
     Probe,
+}
+
+fn has_stop(p: &[Cmd]) -> bool {
+    p.iter().any(|c| match c {
+        Cmd::Async(a, _) => a.iter().any(|x| matches!(x, Act::Kill(true, _))),
+        Cmd::Pipe(l, _) => l.iter().any(|(a, _)| a.iter().any(|x| matches!(x, Act::Kill(true, _)))),
+        _ => false,
+    })
 }
 
 fn cmds_coq(p: &[Cmd]) -> String {
     let v: Vec<String> = p
         .iter()
         .map(|c| match c {
-            Cmd::Async(w, st) => format!("(CAsync {} {})", coq::nat(*w as usize), coq::n(*st as u64)),
+            Cmd::Async(w, st) => format!("(CAsync {} {})", acts_coq(w), coq::n(*st as u64)),
             Cmd::Pipe(l, pf) => {
                 let m: Vec<String> =
-                    l.iter().map(|(w, st)| format!("({}, {})", coq::nat(*w as usize), coq::n(*st as u64))).collect();
+                    l.iter().map(|(w, st)| format!("({}, {})", acts_coq(w), coq::n(*st as u64))).collect();
                 format!("(CPipe {} {})", coq::list(&m), coq::b(*pf))
             }
             Cmd::Wait(None) => "(CWait None)".into(),
@@ -298,7 +398,7 @@ fn render(p: &[Cmd]) -> String {
     for c in p {
         match c {
             Cmd::Async(w, st) => {
-                s.push_str(&format!("work {w} {st} &\np{nkids}=$!\n"));
+                s.push_str(&format!("{{ {}; }} &\np{nkids}=$!\n", acts_sh(w, *st)));
                 asyncs.push(nkids);
                 nkids += 1;
             }
@@ -308,9 +408,9 @@ fn render(p: &[Cmd]) -> String {
                     pipefail = *pf;
                 }
                 if l.len() == 1 {
-                    s.push_str(&format!("( work {} {} )\n", l[0].0, l[0].1));
+                    s.push_str(&format!("( {} )\n", acts_sh(&l[0].0, l[0].1)));
                 } else {
-                    let m: Vec<String> = l.iter().map(|(w, st)| format!("work {w} {st}")).collect();
+                    let m: Vec<String> = l.iter().map(|(w, st)| format!("{{ {}; }}", acts_sh(w, *st))).collect();
                     s.push_str(&format!("{}\n", m.join(" | ")));
                 }
                 nkids += l.len();
@@ -338,14 +438,14 @@ fn gen_prog(r: &mut Rng, maxlen: usize, maxw: u32) -> Vec<Cmd> {
     for _ in 0..n {
         match r.below(100) {
             0..=29 => {
-                p.push(Cmd::Async(r.below(maxw as usize + 1) as u32, *r.pick(&sts)));
+                p.push(Cmd::Async(works(r.below(maxw as usize + 1) as u32), *r.pick(&sts)));
                 asyncs.push(nkids);
                 nkids += 1;
             }
             30..=54 => {
                 let k = 1 + r.below(4);
-                let l: Vec<(u32, i32)> =
-                    (0..k).map(|_| (r.below(maxw as usize + 1) as u32, *r.pick(&sts))).collect();
+                let l: Vec<(Vec<Act>, i32)> =
+                    (0..k).map(|_| (works(r.below(maxw as usize + 1) as u32), *r.pick(&sts))).collect();
                 nkids += k;
                 p.push(Cmd::Pipe(l, r.chance(1, 3)));
             }
@@ -371,6 +471,60 @@ fn gen_prog(r: &mut Rng, maxlen: usize, maxw: u32) -> Vec<Cmd> {
     p
 }
 
+/// Scripts in which a helper (an asynchronous child started first) stops another
+/// child and continues it later; `work` delays in virtual time make the order of
+/// the signals deterministic (the target is alive at both).
+///   kind 0: foreground subshell stopped by the helper
+///   kind 1: foreground subshell that stops itself, continued by the helper
+///   kind 2: first member of a pipeline stopped
+///   kind 3: last member of a pipeline (pipefail) stopped
+///   kind 4: asynchronous job stopped, then `wait PID`
+///   kind 5: asynchronous job stopped, then `wait`
+fn stop_prog(kind: usize, at: u32, gap: u32, base: usize, r: &mut Rng) -> Vec<Cmd> {
+    let st = *r.pick(&[0, 3, 5, 42]);
+    let st2 = *r.pick(&[0, 1, 7]);
+    let long = at + gap + 2 + r.below(3) as u32;
+    let helper = |t: usize| {
+        let mut v = works(at);
+        v.push(Act::Kill(true, t));
+        v.extend(works(gap));
+        v.push(Act::Kill(false, t));
+        v
+    };
+    let h = base; // index of the helper
+    let mut p = match kind {
+        0 => vec![Cmd::Async(helper(h + 1), 0), Cmd::Pipe(vec![(works(long), st)], false), Cmd::Probe],
+        1 => {
+            let mut me = works(at);
+            me.push(Act::Kill(true, h + 1));
+            me.extend(works(1));
+            let mut hp = works(at + gap);
+            hp.push(Act::Kill(false, h + 1));
+            vec![Cmd::Async(hp, 0), Cmd::Pipe(vec![(me, st)], false), Cmd::Probe]
+        }
+        2 => vec![
+            Cmd::Async(helper(h + 1), 0),
+            Cmd::Pipe(vec![(works(long), st2), (works(1), st)], false),
+            Cmd::Probe,
+        ],
+        3 => vec![
+            Cmd::Async(helper(h + 2), 0),
+            Cmd::Pipe(vec![(works(0), st2), (works(long), st)], true),
+            Cmd::Probe,
+        ],
+        4 => vec![
+            Cmd::Async(helper(h + 1), 0),
+            Cmd::Async(works(long), st),
+            Cmd::Wait(Some(h + 1)),
+            Cmd::Probe,
+        ],
+        _ => vec![Cmd::Async(helper(h + 1), 0), Cmd::Async(works(long), st), Cmd::Wait(None), Cmd::Probe],
+    };
+    p.push(Cmd::Wait(None));
+    p.push(Cmd::Probe);
+    p
+}
+
 struct SRun {
     o: Outcome,
     info: SchedInfo,
@@ -381,6 +535,9 @@ thread_local! {
 }
 
 fn run_script(script: &str, policy: Policy) -> SRun {
+    // scripts that send signals rely on virtual time for the order of their
+    // events: time advances only when no process can run
+    sched::EARLY_TICK.store(!script.contains("kill -"), std::sync::atomic::Ordering::SeqCst);
     WATCHDOG.with(|wd| wd.tick(script));
     let (o, info) = run_shell_sched(
         RunOpts { argv: vec!["-c".into(), script.into()], ..Default::default() },
@@ -436,6 +593,9 @@ fn emit_s_case(w: &mut CasesWriter, p: &[Cmd], script: &str, pol_name: &str, run
     let nk = run.info.children.len();
     w.count(&format!("S.children:{}", nk.min(6)));
     w.count(&format!("S.policy:{}", pol_name.split(':').next().unwrap()));
+    if has_stop(p) {
+        w.count("S.script:stop-and-continue");
+    }
     let branches = run.info.path.iter().filter(|(_, n)| *n > 1).count();
     w.count(&format!("S.choice-points:{}", if branches >= 8 { "8+".to_string() } else { branches.to_string() }));
     let key = if nk >= 2 && branches >= 1 {
@@ -478,10 +638,41 @@ fn gen_inner(r: &mut Rng, depth: usize, var: &mut usize) -> String {
     }
 }
 
+/// A first statement in which a helper (pid 3) stops the next child (pid 4) and
+/// continues it later, while the main shell waits for that child in different
+/// ways (command substitution, subshell, pipeline, self-stopping subshell).
+fn gen_stop_stmt(r: &mut Rng) -> String {
+    let at = 1 + r.below(3);
+    let gap = 1 + r.below(3);
+    let long = at + gap + 2 + r.below(3);
+    let helper = format!("{{ work {at}; kill -STOP 4; work {gap}; kill -CONT 4; }} &\nh0=$!\n");
+    match r.below(7) {
+        // the substitution's output ends early (stdout closed), so the shell is already
+        // waiting for the subshell when it gets stopped
+        5 | 6 => format!(
+            "{helper}s0=$( echo held; exec >&-; work {long}; exit {} )\nargs \"$?\" \"$s0\"\n",
+            r.below(7)
+        ),
+        0 => format!("{helper}s0=$( work {long}; echo held )\nargs \"$?\" \"$s0\"\n"),
+        1 => format!("{helper}( work {long}; exit {} )\nargs \"$?\"\n", r.below(7)),
+        2 => format!("{helper}{{ work {long}; echo data; }} | {{ cat; work 1 {}; }}\nargs \"$?\"\n", r.below(5)),
+        3 => format!(
+            "{{ work {}; kill -CONT 4; }} &\nh0=$!\n( work {at}; kill -STOP 4; work 1; exit {} )\nargs \"$?\"\n",
+            at + gap,
+            r.below(7)
+        ),
+        _ => format!("{helper}s0=$( ( work {long}; echo deep ) | cat )\nargs \"$?\" \"$s0\"\n"),
+    }
+}
+
 fn gen_nested(r: &mut Rng) -> String {
     let mut s = String::new();
     let mut var = 0usize;
     let mut pending: Vec<usize> = vec![];
+    if r.chance(1, 4) {
+        s.push_str(&gen_stop_stmt(r));
+        s.push_str("wait $h0\n");
+    }
     let n = 2 + r.below(6);
     for _ in 0..n {
         match r.below(10) {
@@ -577,6 +768,10 @@ fn gobs_term(run: &SRun) -> String {
 }
 
 fn stream_x_case(w: &mut CasesWriter, r: &mut Rng, script: &str, nsched: usize) {
+    stream_x_case_tagged(w, r, script, nsched, &[]);
+}
+
+fn stream_x_case_tagged(w: &mut CasesWriter, r: &mut Rng, script: &str, nsched: usize, tags: &[&str]) {
     let mut terms = vec![];
     let mut descr = vec![];
     let mut maxkids = 0;
@@ -607,8 +802,11 @@ fn stream_x_case(w: &mut CasesWriter, r: &mut Rng, script: &str, nsched: usize) 
     let term = format!("(CCross true {})", coq::list(&terms));
     let json = format!("{{\"stream\":\"X\",\"script\":{},\"runs\":[{}]}}", json_str(script), descr.join(","));
     w.count(&format!("X.processes:{}", (maxkids + 1).min(9)));
+    if script.contains("kill -STOP") {
+        w.count("X.script:stop-and-continue");
+    }
     let key = if maxkids >= 3 { Some(format!("X:{script}")) } else { None };
-    w.push(&term, &json, &[], key);
+    w.push(&term, &json, tags, key);
 }
 
 // ---------------------------------------------------------------------------
@@ -685,14 +883,62 @@ fn main() {
                 KOp::Wait(Some(9)),
             ]),
         );
-        let corpus: Vec<Vec<Cmd>> = vec![
+        // stop / continue: reported by wait, collapsing under a blocked SIGCHLD
+        stream_k_case(
+            &mut w,
+            &mut r,
+            0,
+            Some(vec![
+                KOp::Block,
+                KOp::Catch(true),
+                KOp::Fork(5),
+                KOp::Fork(6),
+                KOp::Sig(true, 0),
+                KOp::Wait(Some(0)),
+                KOp::Wait(Some(0)),
+                KOp::Sig(true, 0),
+                KOp::Sig(false, 0),
+                KOp::Wait(None),
+                KOp::Sig(true, 1),
+                KOp::Sig(false, 1),
+                KOp::Wait(None),
+                KOp::Unblock,
+                KOp::Take,
+                KOp::Exit(0),
+                KOp::Wait(None),
+                KOp::Exit(1),
+                KOp::Wait(Some(1)),
+            ]),
+        );
+        // F9 (fixed in /repo b52d679): a signal to a terminated process must not change its state
+        stream_k_case_tagged(
+            &mut w,
+            &mut r,
+            0,
+            Some(vec![KOp::Fork(7), KOp::Exit(0), KOp::Sig(true, 0), KOp::Wait(Some(0)), KOp::Sig(false, 0), KOp::Wait(None)]),
+            &[],
+        );
+        stream_x_case_tagged(
+            &mut w,
+            &mut r,
+            "true &\np=$!\nwait $p\nargs \"$?\"\nkill -CONT $p\nkill -STOP $p\nwait\nargs \"$?\" end\n",
+            2,
+            &[],
+        );
+        let a = |w: u32, st: i32| Cmd::Async(works(w), st);
+        let pl = |l: &[(u32, i32)], pf: bool| Cmd::Pipe(l.iter().map(|(w, st)| (works(*w), *st)).collect(), pf);
+        let mut corpus: Vec<Vec<Cmd>> = vec![
             // F8: `work 3 7 & true & wait` must wait for the older child
-            vec![Cmd::Async(3, 7), Cmd::Async(0, 0), Cmd::Wait(None), Cmd::Probe, Cmd::Wait(Some(0)), Cmd::Probe],
-            vec![Cmd::Async(3, 7), Cmd::Async(0, 0), Cmd::Wait(Some(0)), Cmd::Probe, Cmd::Wait(None), Cmd::Probe],
-            vec![Cmd::Pipe(vec![(2, 1), (0, 0), (1, 5)], false), Cmd::Probe, Cmd::Pipe(vec![(2, 1), (0, 0)], true), Cmd::Probe],
-            vec![Cmd::Async(1, 9), Cmd::Pipe(vec![(0, 4)], false), Cmd::Probe, Cmd::Wait(Some(1)), Cmd::Probe, Cmd::Wait(Some(0)), Cmd::Probe, Cmd::Wait(Some(0)), Cmd::Probe, Cmd::Wait(Some(77)), Cmd::Probe],
+            vec![a(3, 7), a(0, 0), Cmd::Wait(None), Cmd::Probe, Cmd::Wait(Some(0)), Cmd::Probe],
+            vec![a(3, 7), a(0, 0), Cmd::Wait(Some(0)), Cmd::Probe, Cmd::Wait(None), Cmd::Probe],
+            vec![pl(&[(2, 1), (0, 0), (1, 5)], false), Cmd::Probe, pl(&[(2, 1), (0, 0)], true), Cmd::Probe],
+            vec![a(1, 9), pl(&[(0, 4)], false), Cmd::Probe, Cmd::Wait(Some(1)), Cmd::Probe, Cmd::Wait(Some(0)), Cmd::Probe, Cmd::Wait(Some(0)), Cmd::Probe, Cmd::Wait(Some(77)), Cmd::Probe],
             vec![Cmd::Wait(None), Cmd::Probe, Cmd::Wait(Some(0)), Cmd::Probe],
         ];
+        // a foreground child that is stopped and continued later: the shell keeps waiting
+        for kind in 0..6 {
+            corpus.push(stop_prog(kind, 2, 2, 0, &mut r));
+        }
         for p in &corpus {
             let script = render(p);
             for pk in 0..5 {
@@ -739,6 +985,41 @@ fn main() {
     for k in 0..ns {
         let mut r = rng.fork(2_000_000 + k as u64);
         let p = gen_prog(&mut r, if args.thorough() { 8 } else { 6 }, 3);
+        let script = render(&p);
+        let nsched = args.scale(4, 6);
+        for j in 0..nsched {
+            let pk = match j {
+                0 => 0,
+                1 => 1,
+                _ => 2 + r.below(3),
+            };
+            let (pol, name) = policy_of(pk, r.next_u64() % 1_000_000);
+            let run = run_script(&script, pol);
+            emit_s_case(&mut w, &p, &script, &name, &run);
+        }
+    }
+
+    // children that are stopped and continued while somebody waits for them
+    let nstop = args.scale(40, 600);
+    for k in 0..nstop {
+        let mut r = rng.fork(6_000_000 + k as u64);
+        // a quiet prefix, all of whose children have been waited for
+        let mut p: Vec<Cmd> = if r.chance(1, 2) { gen_prog(&mut r, 3, 2) } else { vec![] };
+        if !p.is_empty() {
+            p.push(Cmd::Wait(None));
+        }
+        let base: usize = p
+            .iter()
+            .map(|c| match c {
+                Cmd::Async(..) => 1,
+                Cmd::Pipe(l, _) => l.len(),
+                _ => 0,
+            })
+            .sum();
+        let kind = r.below(6);
+        let at = 1 + r.below(3) as u32;
+        let gap = 1 + r.below(3) as u32;
+        p.extend(stop_prog(kind, at, gap, base, &mut r));
         let script = render(&p);
         let nsched = args.scale(4, 6);
         for j in 0..nsched {
